@@ -197,6 +197,22 @@ def atomicity(ctx, fb, it, inst, observed=None):
             idx = any(a[0] == "b" and a[1][0] == "call" and a[1][1].endswith("Iterator>::any") and v is False for a, v in cm)
             if not (fit and st and idx):
                 exc = []
+        if exc and cname and re.search(r"update_nodes$", cname):
+            # premise: update_nodes' own Err arises only from the `levels(start) != levels(end)` test (its other failures are its recursion)
+            ci = fb.lookup(cname.split("@")[0])
+            okp = ci is not None
+            if okp:
+                e2 = Engine(fb, inline=lambda i: False)
+                for q in e2.run(ci):
+                    if q.kind != "return":
+                        continue
+                    rvq = e2.value_of(q.store, q.ret)
+                    if known_ok(rvq) is False and isinstance(rvq, tuple) and rvq[0] == "adt":
+                        lv = [a for a, v in q.conds() if a[0] == "b" and len([t for t in subterms(a[1]) if t[0] == "call" and t[1].endswith("::levels")]) == 2]
+                        if not lv:
+                            okp = False
+            if not okp:
+                exc = []
         if exc and cname and re.search(r"update_hashes$", cname):
             # this exception claims the callee cannot fail: decide it on the callee
             ci = fb.lookup(cname.split("@")[0])
